@@ -91,6 +91,10 @@ def run(rep):
             bad("C14:srgb-converted-without-strip", "an image tagged sRGB was converted although stripping is disabled")
         if in_iccp and keep(b"iCCP"):
             prof = c07.extract_profile(in_iccp[0])
+            recog0 = prof is not None and len(prof) >= 100 and prof[84:100] in chunkgen.SRGB_IDS
+            removal_allowed = stripping and keep(b"sRGB") and (bool(in_srgb) or recog0)
+            if gray_moved and not removal_allowed:
+                bad("C14:converted-despite-icc", "the image was converted between grayscale and colour although its ICC profile is to be kept")
             replaced = not out_iccp and out_srgb and not gray_moved and (len(out_srgb) > len([d for d in in_srgb if keep(b"sRGB")]) )
             dropped_for_srgb = not out_iccp and in_srgb and not gray_moved
             if out_iccp:
